@@ -209,7 +209,12 @@ func (c *LocalReusableWorkflowCache) FindMetadata(spec string) (*ReusableWorkflo
 		return nil, nil
 	}
 
-	if m, ok := c.readCache(spec); ok {
+	// Look up and fill the cache in one critical section. Otherwise two files linted in parallel can both miss
+	// the cache and both report that the same workflow is broken
+	c.mu.Lock()
+	defer c.mu.Unlock()
+
+	if m, ok := c.cache[spec]; ok {
 		c.debug("Cache hit for %s: %v", spec, m)
 		return m, nil
 	}
@@ -217,19 +222,19 @@ func (c *LocalReusableWorkflowCache) FindMetadata(spec string) (*ReusableWorkflo
 	file := filepath.Join(c.proj.RootDir(), filepath.FromSlash(spec))
 	src, err := os.ReadFile(file)
 	if err != nil {
-		c.writeCache(spec, nil) // Remember the workflow file was not found
+		c.cache[spec] = nil // Remember the workflow file was not found
 		return nil, fmt.Errorf("could not read reusable workflow file for %q: %w", spec, err)
 	}
 
 	m, err := parseReusableWorkflowMetadata(src)
 	if err != nil {
-		c.writeCache(spec, nil) // Remember the workflow file was invalid
+		c.cache[spec] = nil // Remember the workflow file was invalid
 		msg := strings.ReplaceAll(err.Error(), "\n", " ")
 		return nil, fmt.Errorf("error while parsing reusable workflow %q: %s", spec, msg)
 	}
 
 	c.debug("New reusable workflow metadata at %s: %v", file, m)
-	c.writeCache(spec, m)
+	c.cache[spec] = m
 	return m, nil
 }
 
